@@ -5,6 +5,8 @@ fn main() {
     let args = parse_args();
     // Silence panic messages from subjects that are run under catch_unwind; engines install their own hooks.
     let code = match args.id.as_str() {
+        "C13" => hdmc::props::c13::run(&args),
+        "C17" => hdmc::schedmc::c17::run(&args),
         "C16" => hdmc::props::c16::run(&args),
         "C20" => hdmc::props::c20::run(&args),
         "C19" => hdmc::props::c19::run(&args),
